@@ -80,6 +80,12 @@ fn confirm(ctx: &Ctx, v: &ViolationRec) -> Result<Value, MachineryError> {
             "stdout": String::from_utf8_lossy(&c1.stdout), "stderr": c1.stderr_str(),
         }));
     }
+    if v.clause == "nondeterminism" || v.clause == "state-carried-between-scripts" {
+        // the violation is about run-to-run variation: one more run is recorded, identical
+        // replays are not required
+        let c1 = subject::run_cli_simple(&ctx.bin, v.case.src.as_bytes())?;
+        return Ok(json!({"exit": c1.code, "signal": c1.signal, "stdout": String::from_utf8_lossy(&c1.stdout), "stderr": c1.stderr_str()}));
+    }
     // replay twice in fresh workers and twice through the CLI
     let mut batch = vec![];
     for _ in 0..2 {
